@@ -10,5 +10,5 @@ Extraction "model.ml"
   Life.stored_ttl Rec.known_type
   LifeSpec.chk_C11_life LifeSpec.life_bounds LifeSpec.op_total LifeSpec.chk_C10_rel LifeSpec.B63
   LifeCache.model_run LifeCache.spec_run LifeCache.spec_run_created_ka LifeCache.ident_eqb
-  LifeResp.resp_predict LifeResp.resp_spec LifeResp.chk_C10_resp LifeResp.resp_explained_by
+  LifeResp.resp_predict LifeResp.resp_spec LifeResp.chk_C10_resp
   N.eqb N.add N.mul N.land N.div N.modulo N.ltb N.leb N.sub.
